@@ -79,6 +79,17 @@ Example C16_source_add_present_noop_example :
   run_fn (call_of level0) add_unique_child_rs (VElem e0) (VElem c1) = Some (VUnit, VElem e0).
 Proof. exact add_present_noop_rs_example. Qed.
 
+Theorem C16_source_increment : forall e,
+  run_fn no_call increment_rs (VElem e) VUnit = Some (VUnit, VElem (increment e)).
+Proof. exact increment_rs_correct. Qed.
+
+Theorem C16_source_merge_attr : forall e l,
+  run_fn no_call merge_attr_rs (VElem e) (VAttrs l)
+  = Some (VElem (merge_attr e l), VElem (merge_attr e l)).
+Proof. exact merge_attr_rs_correct. Qed.
+
+Print Assumptions C16_source_increment.
+Print Assumptions C16_source_merge_attr.
 Print Assumptions C16_source_add_unique_children.
 Print Assumptions C16_source_add_unique_attrs.
 Print Assumptions C16_source_add_unique_empty_attr.
